@@ -85,9 +85,78 @@ let c17_spec line =
     Printf.printf "%s %d\n" id (int_of_z (spec_digest_exec zw))
   | _ -> ()
 
+
+(* ---------------- Delta / patch (C01 C05 C16) ---------------- *)
+let rec nat_of_int n = if n <= 0 then O else S (nat_of_int (n - 1))
+let nat_of_int n = (* tail-recursive build *)
+  let rec go acc k = if k <= 0 then acc else go (S acc) (k - 1) in go O n
+let ten = z_of_int 10
+let z_of_dec s =
+  let acc = ref Z0 in
+  String.iter (fun c -> acc := Z.add (Z.mul !acc ten) (z_of_int (Char.code c - 48))) s; !acc
+let zl_of_hex s = List.map z_of_int (unhex s)
+let hex_of_zl l = hex (List.map int_of_z l)
+
+let ops_string ops =
+  if ops = [] then "-" else
+  String.concat "," (List.map (function
+    | Copy (o, l) -> Printf.sprintf "C%d:%d" (int_of_z o) (int_of_z l)
+    | Lit d -> "L" ^ hex_of_zl d) ops)
+
+let sig_string (sg : z list signature) =
+  Printf.sprintf "S bs=%d fs=%d n=%d w=%s" (int_of_z sg.s_block_size) (int_of_z sg.s_file_size)
+    (List.length sg.s_blocks)
+    (String.concat "," (List.map (fun b -> Printf.sprintf "%d:%d" (int_of_z b.b_idx) (int_of_z b.b_weak)) sg.s_blocks))
+
+let delta_string (d : z list delta) =
+  Printf.sprintf "D bs=%d ss=%d bz=%d ops=%s" (int_of_z d.d_block_size) (int_of_z d.d_source_size)
+    (int_of_z d.d_basis_size) (ops_string d.d_ops)
+
+(* `<id> <bs> <basis hex> <src hex>` *)
+let cdelta_line line =
+  match split_ws line with
+  | id :: bs :: basis :: src :: _ ->
+    let bsn = nat_of_int (int_of_string bs) in
+    let basis = zl_of_hex basis and src = zl_of_hex src in
+    let sg = m_signature bsn basis in
+    let d = m_delta bsn sg src in
+    let r = match m_patch false true basis d with POk o -> if o = src then "RT_OK" else "RT_WRONG" | _ -> "RT_ERR" in
+    Printf.printf "%s %s | %s | lits=%d %s\n" id (sig_string sg) (delta_string d) (int_of_z (lits d.d_ops)) r
+  | _ -> ()
+
+let cgreedy_line line =
+  match split_ws line with
+  | id :: bs :: basis :: src :: _ ->
+    let bsn = nat_of_int (int_of_string bs) in
+    Printf.printf "%s %d\n" id (int_of_z (m_greedy bsn (zl_of_hex basis) (zl_of_hex src)))
+  | _ -> ()
+
+let parse_ops s =
+  if s = "-" then [] else
+  List.map (fun t ->
+    if t.[0] = 'C' then
+      (match String.split_on_char ':' (String.sub t 1 (String.length t - 1)) with
+       | [o; l] -> Copy (z_of_dec o, z_of_dec l) | _ -> failwith "bad op")
+    else Lit (zl_of_hex (String.sub t 1 (String.length t - 1)))) (String.split_on_char ',' s)
+
+(* `<id> <checked> <verify> <basis hex> <block_size> <source_size> <basis_size> <ops> <checksum preimage hex | !>` *)
+let cpatch_line line =
+  match split_ws line with
+  | id :: checked :: verify :: basis :: bsz :: ss :: bz :: ops :: ck :: _ ->
+    let d = { d_block_size = z_of_dec bsz; d_source_size = z_of_dec ss; d_basis_size = z_of_dec bz;
+              d_ops = parse_ops ops; d_checksum = (if ck = "!" then [z_of_int (-1)] else zl_of_hex ck) } in
+    let r = m_patch (checked = "1") (verify = "1") (zl_of_hex basis) d in
+    Printf.printf "%s %s\n" id (match r with
+      | POk o -> "OK " ^ hex_of_zl o | PErrBounds -> "ERR_BOUNDS" | PErrIo -> "ERR_IO"
+      | PErrChecksum -> "ERR_CHECKSUM" | PPanic -> "PANIC")
+  | _ -> ()
+
 let () =
   match Array.to_list Sys.argv with
   | _ :: "c17" :: file :: _ -> iter_lines file (c17_line false)
   | _ :: "c17-checked" :: file :: _ -> iter_lines file (c17_line true)
   | _ :: "c17-spec" :: file :: _ -> iter_lines file c17_spec
+  | _ :: "cdelta" :: file :: _ -> iter_lines file cdelta_line
+  | _ :: "cgreedy" :: file :: _ -> iter_lines file cgreedy_line
+  | _ :: "cpatch" :: file :: _ -> iter_lines file cpatch_line
   | _ -> prerr_endline "usage: driver <kind> <cases file>"; exit 2
